@@ -132,10 +132,10 @@ func suiteFuzzGenerate(env *Env, res *Result) {
 		if len(rr[k].seen) > 1 {
 			all := f.text + "\n" + f.inc
 			shape := "c03_order_dependent_other"
-			if ambiguousIncludeLine(all) {
-				shape = "c03_line_claimed_by_two_patterns"
-			} else if cyclicDefinitions(all) {
+			if cyclicDefinitions(all) {
 				shape = "c03_cyclic_definitions"
+			} else if ambiguousIncludeLine(all) {
+				shape = "c03_line_claimed_by_two_patterns" // impossible since fix 597d59c (classify_unique): not a known shape
 			} else if strings.Contains(all, "--") {
 				shape = "c03_chained_suffix_pairs"
 			}
